@@ -86,12 +86,29 @@ def make_shims(clock):
                 # local time: the simulation's local zone is UTC
                 return d.replace(tzinfo=None)
             return d.astimezone(tz)
-    dshim = types.SimpleNamespace(datetime=SimDatetime,
-                                  timedelta=_dt.timedelta,
-                                  timezone=_dt.timezone, date=_dt.date,
-                                  time=_dt.time, tzinfo=_dt.tzinfo)
-    tshim = types.SimpleNamespace(time=lambda: clock.read() / 1e6,
-                                  monotonic=lambda: clock.read() / 1e6)
+
+        @classmethod
+        def utcnow(cls):
+            return from_us(clock.read())
+    import time as _time
+
+    class Proxy(types.ModuleType):
+        """The real module with the clock-reading entry points replaced;
+        everything else falls through, so that a tree which uses another
+        attribute of the module keeps working."""
+
+        def __init__(self, real, **over):
+            super().__init__(real.__name__)
+            self.__dict__['_real'] = real
+            self.__dict__.update(over)
+
+        def __getattr__(self, name):
+            return getattr(self.__dict__['_real'], name)
+    dshim = Proxy(_dt, datetime=SimDatetime)
+    tshim = Proxy(_time, time=lambda: clock.read() / 1e6,
+                  monotonic=lambda: clock.read() / 1e6,
+                  time_ns=lambda: clock.read() * 1000,
+                  monotonic_ns=lambda: clock.read() * 1000)
     return dshim, tshim
 
 
@@ -312,6 +329,18 @@ class C12(Check):
         old_dt, old_time = tu.datetime, tu.time
         tu.datetime, tu.time = dshim, tshim
         tu.clear_time_override()
+        # is the wall-clock seam in effect on this tree? (module attributes
+        # 'datetime' and 'time' of timeutils; a refactor may import the clock
+        # differently - then the un-overridden path is simply not judged)
+        self.seam_ok = False
+        try:
+            m0 = len(clock.log)
+            tu.utcnow()
+            self.seam_ok = len(clock.log) > m0
+        except Exception:
+            pass
+        if not self.seam_ok:
+            bump(pr, 'wall_clock_seam_unavailable')
         model = None        # overridden instant in us, or None
         fixture = None
         distinct = set()
@@ -344,10 +373,15 @@ class C12(Check):
                 if model is not None:
                     bump(pr, 'override_active_query')
                     if reads:
-                        viol('real_clock_read_under_override', op=name,
-                             index=i)
-                        break
-                elif name in QUERY_OPS:
+                        # looking at the real clock is not observable: only
+                        # the answer counts
+                        bump(pr, 'real_clock_read_under_override')
+                elif name in QUERY_OPS or name == 'cmp_abs':
+                    if not reads:
+                        if self.seam_ok:
+                            viol('override_still_active', op=name, index=i)
+                            break
+                        continue
                     bump(pr, 'unoverridden_query')
                 ok, want = want_fn(now_us)
                 log.add(name, repr(got)[:80], ok)
@@ -409,8 +443,6 @@ class C12(Check):
             if fixture is None:
                 return 'skip', None
             fixture.cleanUp()
-            if tu.utcnow.override_time is not None:
-                raise ValueError('override survives TimeFixture.cleanUp')
             return 'model', (None, None)
         if name == 'clear':
             tu.clear_time_override()
